@@ -44,6 +44,19 @@ pub fn apply_repl<T: rspack_sources::Source>(r: &mut ReplaceSource<T>, p: &Repl)
   }
 }
 
+/// `add` with the concrete leaf type where there is one (how == 1: everything is handed over typed);
+/// `prebuilt` is used for the node kinds that only exist boxed in this harness
+fn add_typed(c: &mut ConcatSource, x: &Spec, prebuilt: BoxSource) {
+  match x {
+    Spec::Raw(t) => c.add(RawSource::from(t.clone())),
+    Spec::RawBytes(b) => c.add(RawSource::from(b.clone())),
+    Spec::RawStr(t) => c.add(RawStringSource::from(t.clone())),
+    Spec::RawBuf(b) => c.add(RawBufferSource::from(b.clone())),
+    Spec::Orig { text, name } => c.add(OriginalSource::new(text.clone(), name.clone())),
+    _ => c.add(prebuilt),
+  }
+}
+
 pub fn build_concat(how: u8, children: &[Spec]) -> ConcatSource {
   match how {
     // `new` over *typed* ConcatSource items (flattened by `new` itself) when every child is one
@@ -62,6 +75,7 @@ pub fn build_concat(how: u8, children: &[Spec]) -> ConcatSource {
       for x in children {
         match x {
           Spec::Concat { how: h2, children: ch2 } if how == 1 => c.add(build_concat(*h2, ch2)),
+          _ if how == 1 => add_typed(&mut c, x, build(x)),
           _ => c.add(build(x)),
         }
       }
@@ -153,6 +167,10 @@ fn build_concat_observed_with(how: u8, children: &[Spec], observe: &mut dyn FnMu
           Spec::Concat { how: h2, children: ch2 } if how == 1 => {
             let inner = build_concat_observed_with(*h2, ch2, observe, stale);
             c.add(inner)
+          }
+          _ if how == 1 => {
+            let b = build_observed_with(x, observe, stale);
+            add_typed(&mut c, x, b)
           }
           _ => c.add(build_observed_with(x, observe, stale)),
         }
